@@ -124,6 +124,16 @@ func (s *RefreshableFileDataSource) Initialize() error {
 					return
 				}
 
+				if _, statErr := os.Stat(s.sourceFilePath); os.IsNotExist(statErr) {
+					// Unlinked while another process holds it open: only an attribute change is announced
+					// (the removal event follows when the last descriptor is closed), but the file is gone.
+					logging.Warn("[RefreshableFileDataSource] The file source does not exist any more.", "sourceFilePath", s.sourceFilePath)
+					updateErr := s.Handle(nil)
+					if updateErr != nil {
+						logging.Error(updateErr, "Fail to update nil property")
+					}
+					continue
+				}
 				err := s.doReadAndUpdate()
 				if err != nil {
 					logging.Error(err, "Fail to execute RefreshableFileDataSource.doReadAndUpdate")
